@@ -329,7 +329,10 @@ impl<'e> Sim<'e> {
                             }
                         }
                         None => {
-                            let props = if msg.contains("overflow") { C02 | C01 } else { C07 | C04 };
+                            let mut props = if msg.contains("overflow") { C02 | C01 } else { C07 | C04 };
+                            if matches!(op.kind, OpKind::Mutate { .. }) {
+                                props |= C11;
+                            }
                             self.push(props, "foreign-panic", format!("{} panicked in the cache's own code: {}", op.kind.name(), msg));
                         }
                     }
